@@ -275,6 +275,11 @@ pub struct FrontendCtx<'a, R: FileManager> {
     distributing_over: Vec<(BffFileName, u32, RuntypeUUID)>,
     /// default exports being expanded in place for a qualifier-less import("...") type
     expanding_import_types: Vec<RuntypeUUID>,
+    /// whole-module values (typeof of a namespace) computed during the outermost walk that is under
+    /// way: a module reached over several `export *` routes is walked once, not once per route
+    whole_file_values: BTreeMap<BffFileName, Runtype>,
+    whole_file_depth: usize,
+    whole_file_cycle_cuts: usize,
     /// members of the enum whose member initialiser is being typed (innermost last): inside an enum
     /// body a bare name means an earlier member before it means a value of the module
     enum_member_scope: Vec<(Vec<swc_ecma_ast::TsEnumMember>, BffFileName, Vec<String>)>,
@@ -1163,6 +1168,9 @@ impl<'a, R: FileManager> FrontendCtx<'a, R> {
             distributing_over: vec![],
             expanding_import_types: vec![],
             enum_member_scope: vec![],
+            whole_file_values: BTreeMap::new(),
+            whole_file_depth: 0,
+            whole_file_cycle_cuts: 0,
         }
     }
 
@@ -2741,9 +2749,27 @@ impl<'a, R: FileManager> FrontendCtx<'a, R> {
                 DiagnosticInfoMessage::CannotNotResolveValue(whole_file),
             );
         }
+        if let Some(done) = self.whole_file_values.get(bff_file_name) {
+            return Ok(done.clone());
+        }
         self.typing_values.push(whole_file);
+        self.whole_file_depth += 1;
+        let cuts_before = self.whole_file_cycle_cuts;
         let res = self.extract_whole_file_as_value_step(bff_file_name, anchor);
+        self.whole_file_depth -= 1;
         self.typing_values.pop();
+        // a walk that left a module out because it is being walked further up is not the module's
+        // whole value: only complete walks are remembered, and only until the outermost one ends
+        if let Ok(done) = &res
+            && self.whole_file_cycle_cuts == cuts_before
+        {
+            self.whole_file_values
+                .insert(bff_file_name.clone(), done.clone());
+        }
+        if self.whole_file_depth == 0 {
+            self.whole_file_values.clear();
+            self.whole_file_cycle_cuts = 0;
+        }
         res
     }
 
@@ -2781,6 +2807,7 @@ impl<'a, R: FileManager> FrontendCtx<'a, R> {
                 visibility: Visibility::Export,
             };
             if self.typing_values.contains(&whole_file) {
+                self.whole_file_cycle_cuts += 1;
                 continue;
             }
             let inner = self.extract_whole_file_as_value(passed_on, anchor)?;
